@@ -380,7 +380,7 @@ Definition mk_pfield (name key : string) (a : ann) (is_lit cond : bool) : pfield
 (* the pydantic field of one resolved field node, with the context of its annotation (pure: does not
    depend on _public_names) *)
 Definition field_pf (C : cfg) (S : schema) (frs : list fragdef) (fuel' : nat)
-           (class_name type_name : string) (tvalues : option (list string)) (f : fnode)
+           (class_name type_name : string) (tvalues : option (list string)) (add_typename : bool) (f : fnode)
   : res (pfield * fctx) :=
   let key := field_key f in
   let name := py_field_name C key in
@@ -388,7 +388,10 @@ Definition field_pf (C : cfg) (S : schema) (frs : list fragdef) (fuel' : nat)
   let sub_class := class_name +++ pascal_s name in
   ac <- field_ann_lit C S frs fuel' tvalues f t sub_class ;;
   let '(a0, ctx, is_lit) := ac in
-  Ok (mk_pfield name key (cond_ann is_lit (fn_cond f) a0) is_lit (fn_cond f), ctx).
+  (* the typename Literal ignores @skip/@include only where it discriminates a union (add_typename);
+     elsewhere a conditional __typename is Optional with default None like any other field *)
+  let lit_req := is_lit && add_typename in
+  Ok (mk_pfield name key (cond_ann lit_req (fn_cond f) a0) lit_req (fn_cond f), ctx).
 
 (* _parse_field_selection_set_types: one class per related type of the field's annotation *)
 Definition parse_sub_step (rec : ptd_fun) (S : schema) (ctx : fctx) (f : fnode) (sub : list sel)
@@ -409,11 +412,11 @@ Definition parse_subs (rec : ptd_fun) (S : schema) (ctx : fctx) (f : fnode) (pub
 Definition fields_state := (list pfield * list pclass * mem_state * bool)%type.
 
 Definition parse_field_step (rec : ptd_fun) (C : cfg) (S : schema) (frs : list fragdef) (fuel' : nat)
-           (class_name type_name : string) (tvalues : option (list string))
+           (class_name type_name : string) (tvalues : option (list string)) (add_typename : bool)
            (acc : res fields_state) (f : fnode) : res fields_state :=
   st <- acc ;;
   let '(pfs, extra, pub, sk) := st in
-  pc <- field_pf C S frs fuel' class_name type_name tvalues f ;;
+  pc <- field_pf C S frs fuel' class_name type_name tvalues add_typename f ;;
   let '(pf, ctx) := pc in
   ex <- parse_subs rec S ctx f pub ;;
   let '(exc, exp, exs) := ex in
@@ -430,7 +433,7 @@ Definition parse_body (rec : ptd_fun) (C : cfg) (S : schema) (frs : list fragdef
     let fields := add_typename_field add_typename fields0 in
     kept <- remove_inherited fuel' S frs mixins ;;
     let bases := class_bases mixins kept extra_bases in
-    r <- fold_left (parse_field_step rec C S frs fuel' class_name type_name tvalues) fields
+    r <- fold_left (parse_field_step rec C S frs fuel' class_name type_name tvalues add_typename) fields
                    (Ok ([], [], pub, false)) ;;
     let '(pfs, extra, pub, sk) := r in
     Ok ({| c_name := class_name; c_bases := bases; c_fields := pfs |} :: extra, pub, sk).
